@@ -8,6 +8,7 @@ import (
 	"os"
 	"path/filepath"
 	"testing"
+	"time"
 
 	slug "github.com/hashicorp/go-slug"
 	"pgregory.net/rapid"
@@ -15,6 +16,7 @@ import (
 	"verif/lib/ev"
 	"verif/lib/fsx"
 	"verif/lib/packcase"
+	"verif/lib/pk"
 	"verif/lib/tarx"
 	"verif/lib/tgen"
 )
@@ -187,6 +189,142 @@ func TestPropShrink(t *testing.T) {
 		return ShrinkCase{BigKiB: rapid.SampledFrom([]int{40, 100, 300}).Draw(t, "big"), KeepB: rapid.SampledFrom([]int{0, 10, 5000, 33000}).Draw(t, "keep"),
 			AfterB: rapid.SampledFrom([]int{1, 11, 20000, 60000}).Draw(t, "after"), Before: rapid.Bool().Draw(t, "before"), AfterF: rapid.Bool().Draw(t, "afterf"),
 			Grow: rapid.IntRange(0, 4).Draw(t, "grow") == 0}
+	})
+}
+
+// ---------------------------------------------------------------------------
+// One Packer value used for several Packs: after a Pack that failed half-way,
+// and for two Packs that overlap in time. The Meta of each call describes the
+// slug of that call and nothing else.
+
+type ReuseCase struct {
+	Tree    fsx.Tree `json:"tree"`
+	Other   fsx.Tree `json:"other"`
+	Ignore  bool     `json:"ignore"`
+	Overlap bool     `json:"overlap"` // the two Packs overlap (else: a failing Pack, then this one)
+}
+
+func metaMatches(what string, meta *slug.Meta, data []byte) error {
+	entries, err := tarx.Decode(data)
+	if err != nil {
+		return fmt.Errorf("%s: slug does not decode: %v", what, err)
+	}
+	if meta == nil {
+		return fmt.Errorf("%s: nil Meta with nil error", what)
+	}
+	var names []string
+	var hdrSum, bodySum int64
+	for _, e := range entries {
+		names = append(names, e.Name)
+		if e.Typeflag == tar.TypeReg {
+			hdrSum += e.Size
+			bodySum += e.BodyLen
+		}
+	}
+	if fmt.Sprint(meta.Files) != fmt.Sprint(names) {
+		return fmt.Errorf("%s: Meta.Files = %v, the slug holds %v", what, meta.Files, names)
+	}
+	if meta.Size != bodySum || meta.Size != hdrSum {
+		return fmt.Errorf("%s: Meta.Size = %d, content bytes stored = %d, sum of header sizes = %d", what, meta.Size, bodySum, hdrSum)
+	}
+	return nil
+}
+
+type gateWriter struct {
+	buf   bytes.Buffer
+	gate  chan struct{}
+	first chan struct{}
+	once  bool
+}
+
+func (w *gateWriter) Write(p []byte) (int, error) {
+	if !w.once {
+		w.once = true
+		close(w.first)
+		<-w.gate
+	}
+	return w.buf.Write(p)
+}
+
+var subReuse = ev.Register("reuse", func(c ReuseCase) error {
+	r, cleanup := fsx.Scratch("c20r-")
+	defer cleanup()
+	srcA, srcB := filepath.Join(r, "a", "src"), filepath.Join(r, "b", "src")
+	if err := fsx.Materialise(srcA, c.Tree, nil); err != nil {
+		return fmt.Errorf("harness: %v", err)
+	}
+	other := c.Other
+	if !c.Overlap {
+		// a tree whose Pack fails after some entries: an out-of-tree link that may not be stored
+		other = append(append(fsx.Tree{}, c.Other...), fsx.Node{Path: "zzz-out", Kind: "symlink", Target: "../../../nowhere/at/all"})
+	}
+	if err := fsx.Materialise(srcB, other, nil); err != nil {
+		return fmt.Errorf("harness: %v", err)
+	}
+	p, err := pk.Opts{Ignore: c.Ignore}.Packer(nil)
+	if err != nil {
+		return fmt.Errorf("harness: %v", err)
+	}
+	ev.NonTrivial(c, "packer-reused")
+	if !c.Overlap {
+		var junk bytes.Buffer
+		func() {
+			defer func() { recover() }()
+			p.Pack(srcB, &junk)
+		}()
+		var buf bytes.Buffer
+		meta, perr := p.Pack(srcA, &buf)
+		if perr != nil {
+			ev.Label("pack-error")
+			return nil
+		}
+		return metaMatches("Pack after a Pack of another tree that failed half-way, same Packer", meta, buf.Bytes())
+	}
+	wa := &gateWriter{gate: make(chan struct{}), first: make(chan struct{})}
+	var metaA *slug.Meta
+	var errA error
+	done := make(chan struct{})
+	go func() {
+		defer close(done)
+		defer func() { recover() }()
+		metaA, errA = p.Pack(srcA, wa)
+	}()
+	select {
+	case <-wa.first:
+	case <-done: // nothing was written before Pack ended
+	}
+	var bufB bytes.Buffer
+	var metaB *slug.Meta
+	var errB error
+	doneB := make(chan struct{})
+	go func() {
+		defer close(doneB)
+		defer func() { recover() }()
+		metaB, errB = p.Pack(srcB, &bufB)
+	}()
+	select {
+	case <-doneB:
+	case <-time.After(3 * time.Second):
+		// the Packer makes its Packs take turns: B waits for A, which waits for us
+		ev.Label("packs-serialised")
+	}
+	close(wa.gate)
+	<-done
+	<-doneB
+	if errA != nil || errB != nil {
+		ev.Label("pack-error")
+		return nil
+	}
+	if err := metaMatches("Pack A (held at its first write while Pack B ran on the same Packer)", metaA, wa.buf.Bytes()); err != nil {
+		return err
+	}
+	return metaMatches("Pack B (run while Pack A was in progress on the same Packer)", metaB, bufB.Bytes())
+})
+
+func TestPropReuse(t *testing.T) {
+	ev.Check(t, subReuse, func(t *rapid.T) ReuseCase {
+		cfg := tgen.Config{MaxNodes: 8, Links: true, IgnoreNames: true}
+		return ReuseCase{Tree: tgen.Gen(t, cfg), Other: tgen.Gen(t, cfg), Ignore: rapid.Bool().Draw(t, "ignore"), Overlap: rapid.Bool().Draw(t, "overlap")}
 	})
 }
 
